@@ -565,7 +565,7 @@ pub fn run(mode: Mode, ctx: &mut Ctx) -> Vec<Violation> {
     }
 
     // (b) exhaustive word strings
-    let max_len = t.pick(5, 6);
+    let max_len = t.pick(6, 7);
     let total = exh_total(max_len);
     let v = run_enum(ctx, "exh-words", total, |i| RawCase { bytes: Hex(exh_string(i)) }, |ctx, c| {
         // fingerprints for exhaustive cases are counted exactly, not hashed
